@@ -35,7 +35,10 @@ RULE = ("each run = one table (2-5 fields, 0-12 records, shared enum field type,
         "negotiated, or while a line task was in flight; distinct = digest of the trace.")
 
 FIELDS = ["id", "name", "status", "level", "flag"]
-ODD_FIELDS = ["my field", "Ünï", "x2", "_u", "a.b"]
+ODD_FIELDS = ["my field", "Ünï", "x2", "_u", "a.b",
+              # names that Unicode normalisation would change (micro sign, ohm sign, superscript, combining accent,
+              # full-width letters): a name is whatever the caller wrote
+              "time_\u00b5s", "R_\u2126", "m\u00b2", "e\u0301x", "\uff49\uff44"]
 
 
 def init_zygote():
@@ -100,7 +103,7 @@ def generate(rng, tier):
     enums = [gen_enum(rng)]
     k = rng.randint(2, 5)
     fields = rng.sample(FIELDS, k)
-    odd = rng.random() < 0.15
+    odd = rng.random() < 0.2
     if odd:
         # an unusual but legal field name (holds plain strings)
         fields[rng.randrange(k)] = rng.choice(ODD_FIELDS)
